@@ -95,6 +95,11 @@ func (rn *runner) runParamsOnce(c *Case, fresh bool) {
 			case "recycle":
 				ctx.Destroy()
 				ctx = types.NewContext()
+			case "stale": // a late writer touches the context after it went back to the pool
+				old := ctx
+				ctx.Destroy()
+				old.Set("late", "1")
+				ctx = types.NewContext()
 			default:
 				panic("unknown params op " + op.Op)
 			}
